@@ -13,7 +13,7 @@ import cli
 from impl import trees, treeinput, transform, quiet, mk_leaf, mk_node
 
 ID = "C01"
-MODULE = ['TT.Props.C01', 'TT.Props.C01More', 'TT.Props.C01Readers', 'TT.Props.C01Disco', 'TT.Props.C01Disco2', 'TT.Props.C01Src']
+MODULE = ['TT.Props.C01', 'TT.Props.C01More', 'TT.Props.C01Readers', 'TT.Props.C01Disco', 'TT.Props.C01Disco2', 'TT.Props.C01Src', 'TT.Props.C03Words']
 RULE = ("corpora of 1..4 sentences written by a grammar-directed encoder with random layout: brackets (every whitespace "
         "layout, empty/explicit root label, junk between groups), discobrackets, export v3/v4 (headers, comment and "
         "secondary-edge columns, arbitrary consistent 5xx numbering, lines in any order), TIGER-XML (attribute and <nt> "
@@ -377,6 +377,13 @@ def group_case(text, emptypos, group):
 
 
 def gen(seed, tier, scale):
+    # wave 18: the same reader option in every format, given as WORDS of `--src-opts` on the command line
+    # (TT.readSrcWords: options_dict, then what the readers make of the dict; theorems TT/Props/C03Words.lean, C01Src.lean)
+    import srccases
+    nw = (24 if tier == "quick" else 400) * scale
+    rngs = [case_rng(seed, ID, 800000 + i) for i in range(nw)]
+    for i, c in enumerate(cli.pmap(srccases.words_case, rngs)):
+        yield 800000 + i, c
     idx = 0
     L = 7 if tier == "quick" else 8
     for n in range(1, L + 1):
